@@ -302,13 +302,36 @@ def gen(repo):
                    % (pfx, t, floor[0], floor[1]))
         # 3. rank check
         rk = None
-        for s in walk_stmts(src):
-            if isinstance(s, ast.If) and raises_kind(s.body) and isinstance(s.test, ast.Compare) \
-                    and try_dotted(s.test.left) == "self.n_modes_precompute":
-                ct, _ = Expr({"self.n_modes_precompute": ("npre", "Z"), "rank": ("rank", "Z")}).tr(s.test)
-                rk = (ct, ERRK[raises_kind(s.body)])
+
+        def find_rank_check(stmts, guards):
+            nonlocal rk
+            for s in stmts:
+                if isinstance(s, ast.If) and raises_kind(s.body) and isinstance(s.test, ast.Compare) \
+                        and try_dotted(s.test.left) == "self.n_modes_precompute":
+                    # the check protects every solver path: it may only sit under conditions on the KIND of n_modes
+                    for g in guards:
+                        if not any(tok in g for tok in ("is_based_on_variance", "isinstance(self.n_modes_precompute", "self.n_modes_precompute ==")):
+                            raise TransError("rank check is conditional on %r" % g)
+                    ct, _ = Expr({"self.n_modes_precompute": ("npre", "Z"), "rank": ("rank", "Z")}).tr(s.test)
+                    rk = (ct, ERRK[raises_kind(s.body)])
+                elif isinstance(s, ast.If):
+                    find_rank_check(s.body, guards + [ast.unparse(s.test)])
+                    find_rank_check(s.orelse, guards + ["not (%s)" % ast.unparse(s.test)] if False else guards + [ast.unparse(s.test)])
+                elif isinstance(s, (ast.For, ast.While, ast.With, ast.Try, ast.Match)):
+                    for n_ in ast.walk(s):
+                        if isinstance(n_, ast.If) and raises_kind(n_.body) and isinstance(n_.test, ast.Compare) \
+                                and try_dotted(n_.test.left) == "self.n_modes_precompute":
+                            raise TransError("rank check inside a compound statement")
+        find_rank_check(src, [])
         if rk is None:
             raise TransError("rank check not found")
+        # ... and it precedes the choice of the solver
+        if pfx == "dec":
+            pos_chk = [i for i, s_ in enumerate(src) if isinstance(s_, ast.If) and raises_kind(s_.body) and isinstance(s_.test, ast.Compare)
+                       and try_dotted(s_.test.left) == "self.n_modes_precompute"]
+            pos_match = [i for i, s_ in enumerate(src) if isinstance(s_, ast.Match)]
+            if not pos_chk or not pos_match or pos_chk[0] > pos_match[0]:
+                raise TransError("rank check does not precede the solver selection")
         out.append("Definition %s_rank_rejected (npre rank : Z) : bool := %s.\n" % (pfx, rk[0]))
         out.append("Definition %s_rank_error : nat := %s.\n" % (pfx, rk[1]))
         # rank = min(X.shape)
